@@ -1145,7 +1145,8 @@ impl<'a> Visitor<'a, Result<Expr>> for TryIntoExprVisitor<'a> {
         let then_exprs = results.into_iter().collect::<Result<Vec<Expr>>>()?;
         let mut case_expr = match else_result {
             Some(r) => r?,
-            None => Expr::Value(Value::unit()),
+            // no ELSE is ELSE NULL (and is rendered so): parse it as the NULL literal is parsed
+            None => Expr::val(None),
         };
         for (w, t) in when_exprs.iter().rev().zip(then_exprs.iter().rev()) {
             case_expr = Expr::case(w.clone(), t.clone(), case_expr.clone());
